@@ -35,6 +35,8 @@ def _mirror_in(C, x, memo):
     elif isinstance(x, SymBytes):
         r = rev(BA(x.nbytes * 8, x.bit))
         m = SymBytes(x.nbytes, r.bit, x.kind)
+    elif isinstance(x, BA):
+        m = rev(x)
     elif isinstance(x, Obj) and x.cls.name == 'BitStore':
         m = mk_store(C, rev(store_bits(x)))
     else:
@@ -72,7 +74,7 @@ def mirrored(spec_fn, mutates_self=False):
     return f
 
 
-def add_lsb0(qualname, mutates_self=False, custom=None, shape_filter=None, extra_props=(), stable=True):
+def add_lsb0(qualname, mutates_self=False, custom=None, shape_filter=None, extra_props=(), stable=True, timeout_ms=None):
     """add lsb0 shapes (options.lsb0 = True) to an existing contract; its spec becomes mode-aware"""
     c = REGISTRY[qualname]
     orig = c.spec
@@ -90,7 +92,7 @@ def add_lsb0(qualname, mutates_self=False, custom=None, shape_filter=None, extra
         o = dict(sh.opts)
         o['lsb0'] = True
         new.append(Shape(sh.name + '/lsb0', sh.build, sh.real, opts=o, loop_bound=sh.loop_bound, props={'C12'} | set(extra_props), gen=sh.gen,
-                         stable=stable and sh.stable))
+                         stable=(stable(sh) if callable(stable) else stable) and sh.stable, timeout_ms=timeout_ms or sh.timeout_ms))
     c.shapes.extend(new)
 
 
@@ -119,13 +121,34 @@ _lsb0_store_contract('bitstore.BitStore.getslice_withstep_lsb0', _bs.getslice_wi
                      "lsb0 s[a:b:c] == rev(rev(s)[a:b:c]) for every step")
 
 # ---- Bits-level operations re-run in lsb0 mode ------------------------------------------------------------
-for q in ('bits.Bits.__getitem__', 'bitstream.ConstBitStream.__getitem__', 'bits.Bits.startswith', 'bits.Bits.endswith'):
+for q in ('bits.Bits.__getitem__', 'bitstream.ConstBitStream.__getitem__'):
     add_lsb0(q)
+for q in ('bits.Bits.startswith', 'bits.Bits.endswith'):
+    add_lsb0(q, stable=False, timeout_ms=6000)     # quantified view equality through the mirror: load-sensitive
 for q in ('bitarray_.BitArray.insert', 'bitstream.BitStream.insert', 'bitarray_.BitArray.overwrite', 'bitstream.ConstBitStream.overwrite',
           'bitarray_.BitArray.append', 'bitstream.ConstBitStream.append', 'bitarray_.BitArray.prepend', 'bitstream.BitStream.prepend',
           'bitarray_.BitArray.__delitem__', 'bitstream.BitStream.__delitem__', 'bitarray_.BitArray.reverse',
           'bitarray_.BitArray.set', 'bitarray_.BitArray.invert', 'bitarray_.BitArray.__iadd__', 'bitstream.BitStream.__iadd__'):
     add_lsb0(q, mutates_self=True)
+
+
+def _setitem_lsb0(q):
+    # an integer assigned to a slice is a whole value: it is encoded (in stored order) in the slice's length first, and only
+    # then treated as the bit operand of the mirrored operation
+    orig = REGISTRY[q].spec
+    mir = mirrored(orig, True)
+
+    def f(C, self, key, value):
+        if isinstance(key, slice) and sym.is_intlike(value):
+            from .values import enc_int
+            first, count, step = spec.pyslice(C, bits(self).n, key.start, key.stop, None)
+            value = enc_int(C, value, count, bool(sym.truth(value < 0)))
+        return mir(C, self, key, value)
+    return f
+
+
+for q in ('bitarray_.BitArray.__setitem__', 'bitstream.BitStream.__setitem__'):
+    add_lsb0(q, custom=_setitem_lsb0(q), stable=lambda sh: 'step=None' in sh.name or 'key=index' in sh.name, timeout_ms=8000)
 
 # mode-independent operations: same specification in both modes
 for q in ('bits.Bits.__len__', 'bits.Bits.__eq__', 'bits.Bits.__hash__', 'bitstore.BitStore.tobytes', 'bits.Bits.__add__',
@@ -150,8 +173,8 @@ def _rot_lsb0(right):
 
 
 # (the solver needs > 60 s for the ranged cases of these two: load-sensitive, bounded stand-in always runs)
-add_lsb0('bitarray_.BitArray.ror', custom=_rot_lsb0(True), stable=False)
-add_lsb0('bitarray_.BitArray.rol', custom=_rot_lsb0(False), stable=False)
+add_lsb0('bitarray_.BitArray.ror', custom=_rot_lsb0(True), stable=False, timeout_ms=5000)
+add_lsb0('bitarray_.BitArray.rol', custom=_rot_lsb0(False), stable=False, timeout_ms=5000)
 
 
 # reads: the value is the interpretation, in stored order, of the bits at lsb0 positions [pos, pos+L)
